@@ -27,6 +27,8 @@ pub enum Case {
     Collision { kind: String },
     /// project shape variations: with/without events and channels
     Shape { events: bool, channels: bool, structs: bool },
+    /// a project type with an unusual (but legal) Rust name, under Vec / Option, at a site
+    OddName { name: String, site: String, wrap: usize },
 }
 
 impl Case {
@@ -106,6 +108,17 @@ impl Case {
                 }
                 (Project::single(s), cfg)
             }
+            Case::OddName { name, site, wrap } => {
+                let site = Site::from_name(site).unwrap_or(Site::Return);
+                let ty = match wrap % 4 {
+                    0 => RTy::named(name),
+                    1 => RTy::vec(RTy::named(name)),
+                    2 => RTy::opt(RTy::vec(RTy::named(name))),
+                    _ => RTy::HashMap(Box::new(RTy::prim("String")), Box::new(RTy::named(name))),
+                };
+                let defs = format!("#[derive(Debug, Clone, Serialize, Deserialize)]\npub struct {} {{ pub id: i32 }}\n", name);
+                (typesite::build_project(site, std::slice::from_ref(&ty), &defs), cfg)
+            }
             Case::Shape { events, channels, structs } => {
                 let mut s = String::from(gen::PRELUDE);
                 s.push_str("use tauri::{AppHandle, Emitter};\nuse tauri::ipc::Channel;\n");
@@ -159,6 +172,9 @@ pub fn eval(case: &Case, zod: bool) -> (Vec<Violation>, bool, Option<String>) {
                     Case::Collision { kind } => {
                         v = v.field("collision", kind.clone());
                     }
+                    Case::OddName { name, site, wrap } => {
+                        v = v.field("odd_name", name.clone()).field("site", site.clone()).field("wrap", wrap.to_string());
+                    }
                     Case::Shape { events, channels, structs } => {
                         v = v.field("shape", format!("e{}c{}s{}", events, channels, structs));
                     }
@@ -205,6 +221,29 @@ pub fn run(tier: Tier) -> CheckResult {
     for t in gen::enumerate_spines(&mapped_leaves, &[RTy::prim("i32")], if tier == Tier::Quick { 1 } else { 2 }) {
         for s in SITES {
             cases.push(Case::TypeAt { site: s.name().into(), ty: t.clone(), mapped: true });
+        }
+    }
+    // project types spelled with a module path whose segments use identifier characters beyond
+    // letters and digits (middle dot, combining accent, tie) or other scripts
+    for qual in ["col·lecció", "x\u{301}y", "a‿b", "données", "モデル", "crate::col·lecció::v2"] {
+        for leaf in ["Item", "Kind"] {
+            let named = RTy::named(&format!("{}::{}", qual, leaf));
+            for t in [named.clone(), RTy::vec(named.clone()), RTy::opt(named.clone())] {
+                for s in SITES {
+                    cases.push(Case::TypeAt { site: s.name().into(), ty: t.clone(), mapped: false });
+                }
+            }
+        }
+    }
+    // legal Rust type names outside [A-Za-z0-9_]: letters of other scripts, characters that continue
+    // an identifier without being letters or digits (middle dot, virama, combining accent, tie),
+    // letters outside the BMP
+    for name in ["Größe", "Col·lecció", "पुस्तक", "किताब", "E\u{301}cole", "Peça", "名前", "𠮷田Profile", "Ωmega", "A‿B", "Ünï_2"] {
+        for s in SITES {
+            // (a project type under a map or tuple at return / event is the open finding above)
+            for wrap in 0..3 {
+                cases.push(Case::OddName { name: name.to_string(), site: s.name().into(), wrap });
+            }
         }
     }
     for n in 1..=3 {
